@@ -30,6 +30,34 @@ def copyKids (step : Tree → Name → Tree × Nat) : Tree → List Name → Tre
     let r := step t c
     if okStatus r.2 then copyKids step r.1 cs else (r.1, some r.2)
 
+/-- The `Stat(dst)` / `RemoveAll(dst)` prologue of `copyFiles`: the tree after it and
+whether the destination is being created, or the error status. -/
+def copyPre (t : Tree) (d : Path) (ow : Bool) : Except Nat (Tree × Bool) :=
+  match Mem.stat t d with
+  | .error e => if e = .notExist then .ok (t, true) else .error 403
+  | .ok _ =>
+    if !ow then .error 412
+    else match Mem.removeAll t d with
+      | .error e => if e = .notExist then .ok (t, false) else .error 403
+      | .ok t1 => .ok (t1, false)
+
+/-- The non-collection branch of `copyFiles`: `OpenFile(dst, O_RDWR|O_CREATE|O_TRUNC)`,
+`io.Copy`, `Close`. -/
+def copyFileTo (t1 : Tree) (d : Path) (srcData : List Nat) (done : Nat) : Tree × Nat :=
+  match Mem.openFile t1 d Mem.rdwrCreateTrunc with
+  | .error e => (t1, if e = .notExist then 409 else 403)
+  | .ok (t2, dstInfo) =>
+    if srcData.isEmpty then (t2, done)            -- io.Copy makes no Write call
+    else if dstInfo.isDir then (t2, 500)          -- memFile.Write on a directory: ErrInvalid
+    else (setEntry t2 d (.file srcData), done)
+
+/-- Contents readable through a handle opened on `s` (empty for a directory). The handle
+survives a `RemoveAll` of its node, so the contents are those at open time. -/
+def dataAt (t : Tree) (s : Path) : List Nat :=
+  match get t s with
+  | some (.file data) => data
+  | _ => []
+
 /-- `copyFiles(ctx, fs, src, dst, overwrite, depth, recursion)` with
 `fuel = 1000 - recursion`; `inf` is `depth == infiniteDepth`. -/
 def copyFiles : Nat → Tree → Path → Path → Bool → Bool → Tree × Nat
@@ -38,18 +66,7 @@ def copyFiles : Nat → Tree → Path → Path → Bool → Bool → Tree × Nat
     match Mem.openFile t s Mem.rdonly with
     | .error e => (t, if e = .notExist then 404 else 500)
     | .ok (_, src) =>
-      -- contents are read through the open handle, which survives a RemoveAll of its node
-      let srcData : List Nat := match get t s with | some (.file data) => data | _ => []
-      -- Stat(dst) / RemoveAll(dst)
-      let pre : Except Nat (Tree × Bool) :=
-        match Mem.stat t d with
-        | .error e => if e = .notExist then .ok (t, true) else .error 403
-        | .ok _ =>
-          if !ow then .error 412
-          else match Mem.removeAll t d with
-            | .error e => if e = .notExist then .ok (t, false) else .error 403
-            | .ok t1 => .ok (t1, false)
-      match pre with
+      match copyPre t d ow with
       | .error st => (t, st)
       | .ok (t1, created) =>
         let done : Nat := if created then 201 else 204
@@ -62,26 +79,22 @@ def copyFiles : Nat → Tree → Path → Path → Bool → Bool → Tree × Nat
               | (t3, some st) => (t3, st)
               | (t3, none) => (t3, done)
             else (t2, done)
-        else
-          match Mem.openFile t1 d Mem.rdwrCreateTrunc with
-          | .error e => (t1, if e = .notExist then 409 else 403)
-          | .ok (t2, dstInfo) =>
-            if srcData.isEmpty then (t2, done)            -- io.Copy makes no Write call
-            else if dstInfo.isDir then (t2, 500)          -- memFile.Write on a directory: ErrInvalid
-            else (setEntry t2 d (.file srcData), done)
+        else copyFileTo t1 d (dataAt t s) done
+
+/-- The `Stat(dst)` / `RemoveAll(dst)` prologue of `moveFiles`. -/
+def movePre (t : Tree) (d : Path) (ow : Bool) : Except Nat (Tree × Bool) :=
+  match Mem.stat t d with
+  | .error e => if e = .notExist then .ok (t, true) else .error 403
+  | .ok _ =>
+    if ow then
+      match Mem.removeAll t d with
+      | .error _ => .error 403
+      | .ok t1 => .ok (t1, false)
+    else .error 412
 
 /-- `moveFiles(ctx, fs, src, dst, overwrite)`. -/
 def moveFiles (t : Tree) (s d : Path) (ow : Bool) : Tree × Nat :=
-  let pre : Except Nat (Tree × Bool) :=
-    match Mem.stat t d with
-    | .error e => if e = .notExist then .ok (t, true) else .error 403
-    | .ok _ =>
-      if ow then
-        match Mem.removeAll t d with
-        | .error _ => .error 403
-        | .ok t1 => .ok (t1, false)
-      else .error 412
-  match pre with
+  match movePre t d ow with
   | .error st => (t, st)
   | .ok (t1, created) =>
     match Mem.rename t1 s d with
